@@ -108,6 +108,9 @@ func identical(a, b Value) bool {
 	case IterV:
 		y, ok := b.(IterV)
 		return ok && x == y
+	case ArrViewV:
+		y, ok := b.(ArrViewV)
+		return ok && x == y
 	case IfaceV:
 		y, ok := b.(IfaceV)
 		if !ok {
@@ -400,9 +403,29 @@ func (e *Exec) tryMerge(a, b *State) (*State, bool) {
 		return nil, false
 	}
 	n := lcp(a.pc, b.pc)
-	ga := And(a.pc[n:]...)
-	gb := And(b.pc[n:]...)
-	_ = gb
+	// conjuncts common to both sides stay separate conjuncts of the merged
+	// path condition (this keeps unrelated constraints independent)
+	inB := map[*Term]bool{}
+	for _, t := range b.pc[n:] {
+		inB[t] = true
+	}
+	var common, onlyA, onlyB []*Term
+	inCommon := map[*Term]bool{}
+	for _, t := range a.pc[n:] {
+		if inB[t] {
+			common = append(common, t)
+			inCommon[t] = true
+		} else {
+			onlyA = append(onlyA, t)
+		}
+	}
+	for _, t := range b.pc[n:] {
+		if !inCommon[t] {
+			onlyB = append(onlyB, t)
+		}
+	}
+	ga := And(onlyA...)
+	gb := And(onlyB...)
 	c := ga
 	// globals must agree
 	if len(a.globals) != len(b.globals) {
@@ -424,9 +447,9 @@ func (e *Exec) tryMerge(a, b *State) (*State, bool) {
 	}
 	m := a.clone()
 	e.mergeInto(m, b, c, true)
-	m.pc = append(append([]*Term(nil), a.pc[:n]...), Or(ga, gb))
-	if Or(ga, gb).IsTrue() {
-		m.pc = m.pc[:n]
+	m.pc = append(append([]*Term(nil), a.pc[:n]...), common...)
+	if d := Or(ga, gb); !d.IsTrue() {
+		m.pc = append(m.pc, d)
 	}
 	if b.nextObj > m.nextObj {
 		m.nextObj = b.nextObj
@@ -614,6 +637,11 @@ func gcState(s *State) {
 				stack = append(stack, x.Obj)
 			}
 		case ChanV:
+			if x.Obj != 0 && !mark[x.Obj] {
+				mark[x.Obj] = true
+				stack = append(stack, x.Obj)
+			}
+		case ArrViewV:
 			if x.Obj != 0 && !mark[x.Obj] {
 				mark[x.Obj] = true
 				stack = append(stack, x.Obj)
